@@ -1248,3 +1248,37 @@ func (t *Term) str(d int) string {
 }
 
 var _ = bits.Len
+
+// Rebuild reconstructs a term of the same operator over new children (through
+// the simplifying builders).
+func (c *Ctx) Rebuild(t *Term, a, b, cc *Term) *Term {
+	switch t.Op {
+	case OpNot:
+		return c.Not(a)
+	case OpNeg:
+		return c.Neg(a)
+	case OpAnd, OpOr, OpXor, OpAdd, OpSub, OpMul, OpUDiv, OpURem, OpSDiv, OpSRem, OpShl, OpLShr, OpAShr:
+		return c.bin(t.Op, a, b)
+	case OpExtract:
+		return c.Extract(a, uint8(t.V>>8), uint8(t.V&0xff))
+	case OpConcat:
+		return c.Concat(a, b)
+	case OpZExt:
+		return c.ZExt(a, t.W)
+	case OpSExt:
+		return c.SExt(a, t.W)
+	case OpIte:
+		return c.Ite(a, b, cc)
+	case OpEq:
+		return c.Eq(a, b)
+	case OpUlt, OpUle, OpSlt, OpSle:
+		return c.cmp(t.Op, a, b)
+	case OpBNot:
+		return c.BNot(a)
+	case OpBAnd:
+		return c.BAnd(a, b)
+	case OpBOr:
+		return c.BOr(a, b)
+	}
+	return t
+}
